@@ -211,6 +211,36 @@ def build_u123(repo, canary=None):
     u.functions.append({"name": "DeepEx::eval_relaxed (statements `let mut tracker ..` through `eval_binary(..)` only)", "file": site.file,
                         "line": site.line, "end_line": site.end_line, "woven_as": "deep site frame"})
 
+    # U3c: the inlined copy of the reduction loop in flat.rs flatex_to_deepex (statement slice): tracker
+    # construction, debug_assert!, loop header and the index computation up to the `assert!`; the rest
+    # of the loop body builds DeepEx nodes and never touches the tracker, it is dropped and the loop
+    # is closed by a generated `}`.
+    site = cut_statements(flat, r"^    pub\(super\) fn flatex_to_deepex<", "let mut tracker", r"re:(?<![_\w])assert!\(", "flatex_to_deepex tracker loop")
+    t = u.rw.r3_smallvec(site.text)
+    t, k1 = re.subn(r"\bdeep_nodes\.len\(\)", "frame_n_nodes", t)
+    t, k2 = re.subn(r"\bflat_ops\.len\(\)", "frame_n_ops", t)
+    t, k3 = re.subn(r"in\s+&prio_inds\b", "in frame_prio_inds.iter()", t)
+    u.rw.count("R7", k1 + k2 + k3)
+    if k1 < 1 or k2 != 1 or k3 != 1:
+        raise WeaveError("lost anchor: R7 operands in the flatex_to_deepex tracker loop (%d, %d, %d)" % (k1, k2, k3))
+    # R6c: the tracker's method calls resolve through Deref/DerefMut of the (Small)Vec to the slice impl at
+    # every call; here the slice is borrowed once (`/*@SLICE@*/` marker, filled by the frame contract) and
+    # the calls go to that borrow
+    t, k4 = re.subn(r"\btracker\.(get_previous|get_next|max_len|consume_next|ignore)\(", r"tracker_sl.\1(", t)
+    u.rw.count("R6c", k4)
+    if k4 < 3:
+        raise WeaveError("lost anchor: tracker method calls in the flatex_to_deepex loop")
+    t = u.rw.r1_loops(t)
+    frame = u.directives("flat2deep loop frame")
+    head = [d for d in frame if d["kind"] == "text"][0]["text"]
+    if u.canary == "flat2deep loop frame":
+        head = head.replace("/*CANARY*/", "false,")
+    body = weave_fn("fn frame() {\n" + t + "\n        } // generated: end of the loop (rest of the body dropped)\n}", [d for d in frame if d["kind"] != "text"], "flat2deep loop frame")
+    inner = body[body.index("{") + 1: body.rindex("}")]
+    u.emit_raw(head + "\n{" + inner + "\n}", {"kind": "repo", "file": site.file, "line": site.line})
+    u.functions.append({"name": "flatex_to_deepex (statements `let mut tracker ..` through the loop's `assert!(..)` only)", "file": site.file,
+                        "line": site.line, "end_line": site.end_line, "woven_as": "flat2deep loop frame"})
+
     u.emit_text("epilogue")
     return u, u.finish()
 
